@@ -23,6 +23,10 @@ func reportProgCases(r *core.Run, cases []*progCase, prefix string) (ok int) {
 		case "inconclusive":
 			r.Inconclusive("watchdog on " + c.name)
 		case "fc-rejected":
+			if strings.HasPrefix(c.key, "corpus/") {
+				r.Violate(prefix+"rejected:"+c.key+"#"+core.Hash(lastLine(c.fcDiag)), "well-typed program of the documented subset rejected: "+c.detail, files)
+				continue
+			}
 			r.Violate(prefix+"rejected:"+c.key, "well-typed program of the documented subset rejected: "+c.detail, files)
 		case "go-compile-error":
 			r.Violate(prefix+"go-compile:"+c.key, "emitted Go does not compile: "+oneLineN(c.detail, 300), files)
@@ -133,4 +137,9 @@ func runC01(r *core.Run, tier string) {
 	for i := 0; i < 2 && i < len(cases); i++ {
 		r.Sample(map[string]any{"source": strings.Split(cases[i].src, "\n"), "predicted_stdout": strings.Split(cases[i].expect, "\n")})
 	}
+}
+
+func lastLine(s string) string {
+	ls := strings.Split(strings.TrimSpace(s), "\n")
+	return strings.TrimSpace(ls[len(ls)-1])
 }
